@@ -1,29 +1,37 @@
 import Rare.Model.Expr.Build
 import Rare.Model.C19Float
-/-! `funcsMath.go`: `{! formula}` (kfMath) on top of the stdmath model (`Rare/Model/C19.lean`),
-    float64 instance.  Values that depend on libm functions make the stage answer `unmodelled`. -/
+/-! `funcsMath.go`: `{! formula}` (kfMath) on top of the stdmath model (`Rare/Model/C19.lean`).
+
+The builder is written once, generically in a `MathInst` (arithmetic, conversion of capture text,
+rendering of the result, what to do with a literal spelling outside the modelled grammar), so that
+its panic-freedom can be proved for every instance whose parts do not panic
+(`Rare/Proofs/C08Math.lean`).  The registered builder is the float64 instance, whose rendering
+answers `unmodelled` for values that depend on libm functions. -/
 namespace Rare.Expr.Funcs.Math
 open Rare.Expr
 
-/-- `keyBuilderContextWrapper`: a look-up parsed with `strconv.ParseFloat`; a failure counts as
-    an error and reads as 0. -/
-def conv (s : Bytes) : C19.F.FV × Nat :=
-  match C19.F.parseFloatText s with
-  | none => (some 0.0, 1)
-  | some v => (v, 0)
+structure MathInst (V : Type) where
+  arith : C19.Arith V
+  /-- `keyBuilderContextWrapper`: a look-up parsed with `strconv.ParseFloat`; value and 1 if the
+      text did not parse (it then reads as 0). -/
+  conv : Bytes → V × Nat
+  /-- `strconv.FormatFloat(val, 'f', -1, 64)` -/
+  render : V → Stage
+  /-- the formula contains a literal spelling outside the modelled grammar (`1_000`, `0x1p4`) -/
+  unmodelledLit : String → Built
 
 /-- `expr.Eval(mathCtx)`: value and number of look-ups that did not parse. -/
-def evalC : C19.Expr C19.F.FV → Comp (C19.F.FV × Nat)
+def evalC {V : Type} (I : MathInst V) : C19.Expr V → Comp (V × Nat)
   | .val v => pure (v, 0)
-  | .named n => do let s ← Comp.key n; pure (conv s)
-  | .idx i => do let s ← Comp.match_ i; pure (conv s)
+  | .named n => do let s ← Comp.key n; pure (I.conv s)
+  | .idx i => do let s ← Comp.match_ i; pure (I.conv s)
   | .un m e => do
-    let (v, k) ← evalC e
-    pure (C19.F.arith.un m v, k)
+    let (v, k) ← evalC I e
+    pure (I.arith.un m v, k)
   | .bin op l r => do
-    let (a, k1) ← evalC l
-    let (b, k2) ← evalC r
-    pure (C19.F.arith.bin op a b, k1 + k2)
+    let (a, k1) ← evalC I l
+    let (b, k2) ← evalC I r
+    pure (I.arith.bin op a b, k1 + k2)
 
 /-- Collapse all arguments to a single formula text; `none` = some argument is not static. -/
 def collapse : List Stage → Bytes → Except String (Option Bytes)
@@ -34,23 +42,35 @@ def collapse : List Stage → Bytes → Except String (Option Bytes)
     | .ok (v, true) => collapse rest (acc ++ v)
     | .ok (_, false) => .ok none
 
-def kfMath : Builder := fun args =>
+def kfMathWith {V : Type} (I : MathInst V) : Builder := fun args =>
   match collapse args [] with
   | .error m => .error m
   | .ok none => errConst
   | .ok (some src) =>
-    match C19.compile C19.F.arith src with
-    | .error (.unmodelled w) => .ok ⟨some (.panic ("unmodelled:!" ++ w)), none⟩
+    match C19.compile I.arith src with
+    | .error (.unmodelled w) => .ok (I.unmodelledLit w)
     | .error (.panic m) => .error m
     | .error .fuel => .error "fuel"
     | .error _ => errParsing
     | .ok (_, e) =>
       ok (do
-        let (v, errs) ← evalC e
-        if errs > 0 then pure ErrorNum
-        else match v with
-          | none => Comp.panic "unmodelled:!inexact"
-          | some x => pure (C19.F.formatF x))
+        let (v, errs) ← evalC I e
+        if errs > 0 then pure ErrorNum else I.render v)
+
+/-- The float64 instance used by the drivers. -/
+def floatInst : MathInst C19.F.FV where
+  arith := C19.F.arith
+  conv := fun s =>
+    match C19.F.parseFloatText s with
+    | none => (some 0.0, 1)
+    | some v => (v, 0)
+  render := fun v =>
+    match v with
+    | none => Comp.panic "unmodelled:!inexact"
+    | some x => pure (C19.F.formatF x)
+  unmodelledLit := fun w => ⟨some (.panic ("unmodelled:!" ++ w)), none⟩
+
+def kfMath : Builder := kfMathWith floatInst
 
 def table : Table := [("!", kfMath)]
 
